@@ -4,4 +4,4 @@ from vlib.checks import loops
 
 def run(ctx):
     loops.model(ctx)
-    loops.run_profiles(ctx, ["c08"], 5000, 60000, "c08")
+    loops.run_profiles(ctx, ["c08"], 5000, 30000, "c08")
